@@ -6,6 +6,10 @@ HOOKS = {
     "add_only": True,
 }
 ENGINES = [
+    {"name": "tlc-scanner-product", "path": "spec/ScannerProduct.tla", "serves_properties": ["C03"],
+     "kind_free_text": "TLC product of per-definition reference recognisers with the combined automaton + owner table exported by harness/scanner.go; generator spec/ScannerGen.tla"},
+    {"name": "tlc-pattern-grammar", "path": "spec/PatternAccept.tla", "serves_properties": ["C09"],
+     "kind_free_text": "TLA+ recogniser of the documented pattern grammar (spec/PatternGrammar.tla) evaluated by TLC over strings swept through the real parsers by harness/pattern.go"},
     {"name": "tlc-product", "path": "spec/RegexProduct.tla", "serves_properties": ["C02", "C10"],
      "kind_free_text": "TLC explores the full product of the TLA+ reference recogniser (partial derivatives, spec/Regex.tla) with automata exported from the real code by harness/regex.go; generators spec/RegexGen.tla, spec/RegexGenSim.tla"},
 ]
@@ -14,6 +18,20 @@ NOTES = ("Every check: TLC-generated cases -> Go harness runs the real emerge co
          "counterexamples replayed on the real code before a VIOLATION line is printed. Exit 2 = infrastructure, never a verdict.")
 NOT_APPLICABLE = {}
 CHECKS = {
+    "C03": {
+        "level": "model_checking",
+        "engine": "tlc-scanner-product",
+        "technique": "TLC product exploration: one TLA+ reference recogniser per definition x the combined scanner automaton and its owner table from the real Spec.DFA()",
+        "text": "For every subset (size <=3 of 14 quick, <=4 of 20 thorough) of a pool of literals, patterns and predefined patterns written as a real specification, TLC explores the full product of the exported combined automaton with the tuple of per-definition reference recognisers and checks in every reachable state: accepting iff some definition matches, owner = the unique matching definition or the unique literal, a conflict error iff a state with two patterns and no literal is reachable (both directions), literals denote their characters with escapes resolved.",
+        "note": "Pool-bounded definition sets; string domain ASCII 1..127; trusted: TLC, printer, partition (as C02).",
+    },
+    "C09": {
+        "level": "model_checking",
+        "engine": "tlc-pattern-grammar",
+        "technique": "TLC evaluates a TLA+ recogniser of the documented pattern grammar on every string the real parsers accepted (exhaustive string sweep + canonical prints + single edits)",
+        "text": "All strings up to length 4 (5 in thorough, smaller alphabet) over every metacharacter plus representatives are run through nfa.Parse and ast.Parse; TLC decides for each accepted string whether the WHOLE string is a sentence of the documented grammar (spec/PatternGrammar.tla, all parses at once), that both entry points agree, that canonical prints of generated trees are accepted and that descending ranges / min>max repetitions are rejected with an error naming the range.",
+        "note": "Bounded string length and alphabet; the grammar transcription in PatternGrammar.tla is trusted (smoke-tested); 'unambiguous form' is the harness printer's form.",
+    },
     "C02": {
         "level": "model_checking",
         "technique": "TLC product exploration: TLA+ partial-derivative reference x exported token automaton (and each pipeline stage), full language equality per pattern",
